@@ -218,4 +218,6 @@ def run(facts, tier):
     r13_2(facts, res, roots)
     r13_3(facts, res)
     r13_3_wrong_doc_first(facts, res)
+    import staleidx
+    staleidx.rule(facts, res, "R13-4", lambda f: f["crate"] in ("xml_info", "xml_dom"), floor=7)
     return res
